@@ -474,6 +474,15 @@ def main(argv=None):
         })
         if pairs < 200 or len(rlines) < 50:
             report.machinery("vacuous run")
+    if True:
+        # Layer B: what a dispatched job does -- validate, skip or execute (spec/Job.tla) -- model checked, and
+        # the commits of the real director on a project of the model's shape matched against its actions
+        with Scratch():
+            from checks import job
+            jb = job.run(report, args.tier, args.seed, "C13")
+        report.coverage["job"] = jb
+        report.coverage["states"] = report.coverage.get("states", 0) + jb.get("states", 0) + jb.get("model_states", 0)
+        report.coverage["traces_validated_against_impl"] = report.coverage.get("traces_validated_against_impl", 0) + jb.get("histories", 0)
     return report.finish()
 
 
